@@ -121,10 +121,13 @@ inline constexpr bool IS_NOTRHOW_LEXICOGRAPHICAL_COMPARABLE<
     T, std::void_t<decltype(std::declval<const T&>() < std::declval<const T&>())>> =
     noexcept(std::declval<const T&>() < std::declval<const T&>());
 
+// Copying the bytes of a U must give the same result as constructing a T from it: either it is the same type or both
+// are integral types of equal size. bool is not a valid target, its conversion maps every non-zero value to true.
 template <class T, class U>
 inline constexpr bool MEMCPY_COMPATIBLE =
     detail::EQUAL_SIZEOF<T, U> && std::is_trivially_copyable_v<T> && std::is_trivially_copyable_v<U> &&
-    std::is_floating_point_v<T> == std::is_floating_point_v<U>;
+    (std::is_same_v<std::remove_cv_t<T>, std::remove_cv_t<U>> ||
+     (std::is_integral_v<T> && std::is_integral_v<U> && !std::is_same_v<std::remove_cv_t<T>, bool>));
 
 // Implementation taken from MSVC _Can_memcmp_elements
 template <class T, class U = T,
